@@ -3,6 +3,7 @@ package main
 import (
 	"fmt"
 	"math"
+	"strings"
 
 	"verif/internal/drive"
 	"verif/internal/gen"
@@ -104,7 +105,46 @@ func (c02) Plan(tier string, seed int64) []mon.Workload {
 		{Name: "compound-table", N: int64(len(c02Compound)) * n * n * 2, Exhaustive: true},
 		{Name: "unary-table", N: int64(len(gen.UnaryOps)) * n * nsrc, Exhaustive: true},
 		{Name: "trees", N: trees},
+		{Name: "retyped-in-loop", N: int64(len(gen.BinOps) * len(c02Retypes) * len(c02RetypeLoops)), Exhaustive: true},
 	}
+}
+
+// retyped-in-loop (exhaustive): an operator applied to variables that hold
+// ints the first time round a loop and something else (float, string, bool,
+// nil, list) from the second iteration on - an operator looks at the types
+// its operands have NOW, whatever they had before or whatever a static
+// reading of the text above suggests.
+var c02Retypes = []string{"1.5", "\"a\"", "true", "nil", "[1]", "2.0", "9007199254740993", "-0.75"}
+var c02RetypeLoops = []string{
+	"x = 1\ny = 2\nfor i = 0; i < 3; i = i + 1 {\n  p(x OP y, y OP x, x OP 2)\n  x = NEW\n}\n",
+	"x = 1\nfor e in [1, 2, 3] {\n  p(x OP 3)\n  if e == 2 {\n    x = NEW\n  }\n}\np(x OP 3)\n",
+	"for i = 0; i <= 1; i = i + 0.75 {\n  y = 2\n  p(i OP y)\n}\n",
+	"x = 1\ny = 1\nfor i = 0; i < 2; i = i + 1 {\n  x OP= 1\n  p(x, y OP x)\n  y = NEW\n}\n",
+	"x = 4\nfor i = 0; i < 3; x = NEW {\n  i = i + 1\n  p(x OP i)\n}\n",
+}
+
+func c02Retyped(i int64) c02Case {
+	loop := c02RetypeLoops[int(i)%len(c02RetypeLoops)]
+	i /= int64(len(c02RetypeLoops))
+	nv := c02Retypes[int(i)%len(c02Retypes)]
+	op := gen.BinOps[int(i)/len(c02Retypes)]
+	if strings.Contains(loop, "OP=") {
+		switch op {
+		case "+", "-", "*", "/", "%":
+		default:
+			return c02Case{Skip: true}
+		}
+	}
+	text := strings.ReplaceAll(strings.ReplaceAll(loop, "OP", op), "NEW", nv)
+	o := drive.Parse("retyped", text)
+	if o.Err != nil {
+		return c02Case{Skip: true}
+	}
+	l, err := gt.FromStmts(o.Stmts)
+	if err != nil {
+		panic(err)
+	}
+	return c02Case{Stmts: gt.CloneStmts(l), Point: gen.ModelPoint(gen.Rand(1), nil, nil), Cell: ""}
 }
 
 type c02Case struct {
@@ -137,6 +177,8 @@ func (c02) build(c *mon.Ctx, workload string, i int64) c02Case {
 	pt := gen.ModelPoint(c.R, nil, nil)
 	var pre []*gt.T
 	switch workload {
+	case "retyped-in-loop":
+		return c02Retyped(i)
 	case "binary-table":
 		src := int(i % 3)
 		i /= 3
